@@ -16,8 +16,12 @@ NA = {
 "C16":"Level-slice sufficiency compares two pure authorizations; the slice is computed in-process, not fetched through a seam.",
 "C17":"The manifest loader trait is crate-private with only the in-memory slicer; from outside slice_entities is a pure function.",
 "C18":"Symbolic compilation on literal environments is pure term construction; the solver I/O is explicitly outside the property."}
-PENDING = {k:"claimed in DESIGN.md section 4 but its world is not implemented yet in this commit (under construction)" for k in ["C20"]}
+PENDING = {k:"claimed in DESIGN.md section 4 but its world is not implemented yet in this commit (under construction)" for k in []}
 CHECKS = {
+"C20": dict(world="storagefaults", cat="fault_enumeration", ref="DESIGN.md 4.6",
+  text="Storage-fault injection over a corpus of durable documents (the repo's sample policies, schemas, entities, contexts, JSON policies; generated documents with every operator, escapes, boundary literals and nesting up to 48; cedar's own protobuf encodings; FFI envelopes): the quick tier enumerates every truncation point and every single-bit flip in the first 64 bytes of every document of at most 2 KiB, then samples multi-fault plans (torn write, bit flip, token overwrite/insert, zero/duplicate/drop range, splice, lost write, invalid UTF-8, wrong-format delivery) plus reader/writer faults (short reads/writes, EINTR, hard error or zero-length write at byte k). Each faulted document is driven through parse -> print / convert / format / validate / authorize / link, or its error is rendered every way, in crash-isolated worker processes. Oracle: no panic (catch_unwind per stage), no death by signal, termination (watchdog + re-examination alone).",
+  note="Trusted: catch_unwind and process exit status as panic/abort detectors; the conservative nesting measure that skips documents deeper than 48. Sampling beyond the enumerated single faults. Reader-error propagation is a statistic, not an oracle.",
+  tech="deterministic simulation: fault enumeration/injection on stored bytes and on Read/Write seams, crash-isolated workers, watchdog"),
 "C19": dict(world="frontends", cat="exploration", ref="DESIGN.md 4.5",
   text="Seeded search over histories of front-end calls issued from 1-3 parked caller threads (the simulator decides which thread makes each call): stateless FFI authorization in every input shape, preparse/re-registration histories with invalid documents, stateful authorization against a per-thread model of the registration cache, FFI validate / format / convert / check-parse, and the real cedar CLI run as a subprocess over a simulated disk with file faults (absent, torn, bit-flipped, swapped, emptied, garbage). Every answer is compared with the Rust API fed the same documents (for stateful calls: with the stateless FFI call on the modelled registered documents).",
   note="Trusted: the Rust API as reference implementation (the property is a refinement between two real implementations), the harness's independent assembly of policy sets / schemas / requests the documented way, the per-thread cache model. 'Currently registered' is read as per calling thread (documented thread-local). Error messages are not compared, only success/failure, decisions, id sets and converted values.",
